@@ -82,6 +82,11 @@ CHECKS = {
          "Runs the real server and, for views of 0-12 messages with UID gaps, issues FETCH/STORE/COPY/MOVE/SEARCH/UID EXPUNGE (sequence and UID forms) with generated sets whose numbers include 0, n+1, 2^31+-1, 2^32+-1, 2^32+k, 2^63+-1, 2^64+k, 10^30; the messages actually affected (rows returned, flags set, messages copied/moved/expunged, search results) must equal what an independent resolver computes, an invalid sequence number must give BAD and leave source and destination unchanged. Thorough adds all sets of <=2 ranges over {1..n+2,*} for n<=4.",
          "Trusts the resolver's reading of RFC 3501 (the n:* case above the highest UID is not judged, as the property says); numbers outside nz-number in UID sets may be refused or resolved mathematically.",
          "DESIGN.md §4 C16"),
+ "C11": ("exploration",
+         "hostile-client monitor against a server in a child process without panic handler: per-line completion accounting with NOOP probes, sentinel session of another user, goroutine/RSS/CPU sampling over a control port",
+         "Hostile connections in three protocol states send grammar-generated valid commands, byte-level mutations, 49 hand-written extremes (deep nesting, 2^32/2^64 numbers, MiB-sized atoms, tag-less and empty lines), announced-then-cut literals, pipelined batches and lines cut by RST/close, following the literal protocol. Oracles: child alive; every completely sent line gets exactly one completion with its tag (or an untagged BAD/NO when it has none), verified by a NOOP probe behind it; the connection keeps answering unless the server said BYE after repeated errors; a sentinel session of another user keeps its FETCH answer; afterwards goroutines are back at the start level, RSS < 700 MiB, idle CPU < 1 s per 3 s.",
+         "A missing completion is only a violation when the child burns CPU or the same bytes hang a second fresh connection (otherwise inconclusive). Work proportional to pattern size x name bytes (LIST with thousands of wildcards, hierarchies beyond ~1000 levels) is kept out of the stream; it is described in DESIGN.md.",
+         "DESIGN.md §4 C11"),
  "C12": ("exploration",
          "crash/hang monitor over a child process plus strict reader of the produced IMAP lists and comparison with the generator's MIME tree",
          "Inputs: generated MIME trees, mutations of them, token soup, header-field edge cases, random bytes, nesting to 1500 (thorough 20000) levels, very wide multiparts, 1 MiB header lines, 50000 header fields, address-list soup. A child process runs imap.NewParsedMessage, rfc822.Parse/Walk/Part and rfc5322.ParseAddressList per input and logs BEGIN/RESULT; the parent decides: no death, no hang; ENVELOPE/BODY/BODYSTRUCTURE read as strict parenthesised lists (balanced, legal quoted strings and literals, single spaces) with ENVELOPE and body arities; every walked part inside the message and inside its parent's body; for generated messages types, parameters, sizes, line counts and nesting equal the tree.",
